@@ -82,6 +82,9 @@ def handle (kw : Dialect → KwTable) (line : String) : String :=
     else if op == "var" then
       match lexVariable s with | none => "none" | some (sys, v, r) => s!"some {sys} {enc v} {enc r}"
     else if op == "varstr" then enc (variableToString (d == "sys") s)
+    else if op == "varrt" then
+      match lexVariable (variableToString (d == "sys") s) with
+      | none => "none" | some (sys, v, r) => s!"some {sys} {enc v} {enc r}"
     else if op == "render" then enc (LitRender.renderLiteral (d == "mysql") s)
     else if op == "stdlex" then
       match LitRender.stdLex s with | none => "none" | some (v, r) => s!"some {enc v} {enc r}"
